@@ -13,8 +13,9 @@ compares and cuts plain strings: `jidToBareJid` = up to the first '/').
 
 Since repo commits 73b9a89 (jabber:client elements before authentication end the stream with `not-authorized`)
 and e590a14 (a checker reply is a child of the SASL object that asked for it and dies with it) the model has no
-"unfixed" mode any more.  User names are NOT checked for '/', '@' or emptiness (the code does not; finding
-C16:username-with-slash).  Server-to-server (QXmppIncomingServer, dialback) is not modelled.  No proofs here.
+"unfixed" mode any more; likewise f6325af (user names that are empty or contain '/' or '@' are refused), c3084c3
+(a connection's routing entries are all removed on rebind and disconnect) and b1ba6cb (SASL2 response needs a SASL2
+request in progress; SASL2 abort drops the mechanism).  Server-to-server (QXmppIncomingServer, dialback) is not modelled.  No proofs here.
 -/
 namespace Qx.C16
 
@@ -275,7 +276,7 @@ def disconnect (c : Conn) (pre : List COut) : CRes :=
 
 /-- undefined behaviour in the C++: the model stops the connection here -/
 def ubRes (c : Conn) : CRes :=
-  { conn := { c with closed := true, pending := [] }, outs := [.ub] }
+  { conn := { c with closed := true, pending := [] }, outs := [.ub, .closed] }
 
 /-- SASL failure + disconnect; the SASL2 paths also reset `sasl2AuthRequest` -/
 def failClose (c : Conn) (v2 : Bool) (cond : Cond) : CRes :=
@@ -291,10 +292,21 @@ def checkCredentials (cfg : Cfg) (c : Conn) (s : Sasl) (p : Payload) : Conn :=
     | _ => c
   | .anon => c
 
+/-- a user name the server refuses to make a JID of (repo commit f6325af): empty, or containing a JID separator -/
+def badName (u : List Char) : Prop := u = [] ∨ '/' ∈ u ∨ '@' ∈ u
+
+instance (u : List Char) : Decidable (badName u) := by unfold badName; exact inferInstance
+
+/-- `checkCredentials`, first the name guard: a malformed user name is refused without asking the checker
+(failure in the format of the SASL version in use, then disconnect) -/
+def credStep (cfg : Cfg) (c : Conn) (s : Sasl) (p : Payload) : CRes :=
+  if badName s.user then failClose c c.v2 .notAuthorized
+  else { conn := checkCredentials cfg c s p }
+
 /-- `onSasl2Authenticated` -/
 def sasl2Authenticated (fresh : List Char) (c : Conn) (pre : List COut) : CRes :=
   match c.s2req with
-  | none => { conn := (ubRes c).conn, outs := pre ++ [.ub] }
+  | none => { conn := (ubRes c).conn, outs := pre ++ [.ub, .closed] }
   | some true =>
     let c1 := { c with resource := fresh, jid := withRes c.jid fresh, s2req := none }
     { conn := c1, outs := pre ++ [.send (.success2 c1.jid true), .bound, .send (featuresOf c1)], used := true }
@@ -321,7 +333,7 @@ def authStep (cfg : Cfg) (c : Conn) (v2 : Bool) (mech : List Char) (p : Payload)
     let r := Sasl.respond { mech := m } p
     let c1 := { c0 with sasl := some r.1 }
     match r.2 with
-    | .inputNeeded => { conn := checkCredentials cfg c1 r.1 p }
+    | .inputNeeded => credStep cfg c1 r.1 p
     | .challenge ch => { conn := c1, outs := [.send (.chal v2 ch)] }
     | _ => failClose c1 v2 (if v2 then .notAuthorized else .none)
 
@@ -336,10 +348,12 @@ def responseStep (cfg : Cfg) (fresh : List Char) (c : Conn) (v2 : Bool) (p : Pay
   match c.sasl with
   | none => disconnect c [.send (.failure v2 (if v2 then .aborted else .none))]
   | some s =>
+    -- a SASL2 response needs a SASL2 <authenticate/> still in progress (repo commit b1ba6cb)
+    if v2 ∧ c.s2req = none then disconnect c [.send (.failure true .aborted)] else
     let r := s.respond p
     let c1 := { c with sasl := some r.1 }
     match r.2 with
-    | .inputNeeded => { conn := checkCredentials cfg c1 r.1 p }
+    | .inputNeeded => credStep cfg c1 r.1 p
     | .succeeded => authSuccess fresh c1 (mkBare r.1.user cfg.domain) v2
     | _ => failClose c1 v2 (if v2 then .notAuthorized else .none)
 
@@ -417,7 +431,8 @@ def connStep (cfg : Cfg) (fresh : List Char) (c : Conn) (ev : Ev) : CRes :=
   | .auth v2 mech p bind => gate c (authStep cfg c v2 mech p bind)
   | .response v2 p => gate c (responseStep cfg fresh c v2 p)
   | .abort v2 =>
-    gate c (if v2 then { conn := { c with s2req := none }, outs := [.send (.failure true .aborted)] } else idle c)
+    -- SASL2 abort drops the mechanism state and, with it, outstanding checker replies (repo commit b1ba6cb)
+    gate c (if v2 then { conn := dropPending { c with s2req := none, sasl := none }, outs := [.send (.failure true .aborted)] } else idle c)
   | .closeStream => gate c (disconnect c [])
   | .bind res => gate c (clientGate c (bindStep fresh c res))
   | .session => gate c (clientGate c { conn := c, outs := [.send (.sessionResult c.jid)] })
@@ -473,12 +488,9 @@ def route (cfg : Cfg) (s : Server) (to : List Char) : Option (List Nat) :=
 /-- sockets that are still open among `found` -/
 def alive (s : Server) (found : List Nat) : List Nat := found.filter fun d => !(s.conns d).closed
 
-/-- The routing tables keep entries of a connection under jids it no longer has (a second bind, a new `<auth/>`
-after a bind) and `_q_clientDisconnected` removes only the entries of the *current* jid: such an entry outlives
-its connection.  Using it calls `sendData` on a deleted `QXmppIncomingClient` — undefined behaviour in the C++
-(observed: SIGSEGV), marked `ub` here; the open sockets among `found` are still written to first or after. -/
-def writeTo (s : Server) (src : Nat) (found : List Nat) (mk : Nat → Out) : List Out :=
-  (if found.any (fun d => (s.conns d).closed) then [.ub src] else []) ++ (alive s found).map mk
+/-- `sendData` to every connection found (on a closed socket it writes nothing; `tables_reference_open_connections`
+shows that since repo commit c3084c3 no closed connection is ever found) -/
+def writeTo (s : Server) (found : List Nat) (mk : Nat → Out) : List Out := (alive s found).map mk
 
 /-- `handleStanza(server, element)` with no extension claiming it -/
 def handleStanza (cfg : Cfg) (s : Server) (src : Nat) (st : Stanza) : List Out :=
@@ -487,48 +499,52 @@ def handleStanza (cfg : Cfg) (s : Server) (src : Nat) (st : Stanza) : List Out :
     | .iq t =>
       if t = .get ∨ t = .set then
         match route cfg s st.sender with
-        | some found => writeTo s src found fun d => .reply src d (.iqError st.id cfg.domain st.sender .featureNotImplemented)
+        | some found => writeTo s found fun d => .reply src d (.iqError st.id cfg.domain st.sender .featureNotImplemented)
         | none => []
       else []
     | _ => []
   else
     match route cfg s st.to with
-    | some found => writeTo s src found fun d => .deliver src d st
+    | some found => writeTo s found fun d => .deliver src d st
     | none =>
       match st.kind with
       | .iq _ =>
         match route cfg s st.sender with
-        | some found => writeTo s src found fun d => .reply src d (.iqError st.id st.to st.sender .serviceUnavailable)
+        | some found => writeTo s found fun d => .reply src d (.iqError st.id st.to st.sender .serviceUnavailable)
         | none => []
       | _ => []
+
+/-- `removeFromRoutingTables(client)`: every entry that points to `c`, under whatever jid (repo commit c3084c3) -/
+def dropEntries (s : Server) (c : Nat) : Server :=
+  { s with byJid := s.byJid.filter (fun e => e.2 ≠ c), byBare := s.byBare.filter (fun e => e.2 ≠ c) }
 
 /-- `_q_clientDisconnected` for connection `c` (already marked closed) -/
 def unregister (s : Server) (c : Nat) : Server × List Out :=
   let jid := (s.conns c).jid
-  if jid = [] then (s, [.closed c])
-  else
-    ({ s with byJid := s.byJid.filter (fun e => !(e.1 = jid ∧ e.2 = c)),
-              byBare := s.byBare.filter (fun e => !(e.1 = bareOf jid ∧ e.2 = c)) },
-     [.closed c, .disconnected c jid])
+  (dropEntries s c, if jid = [] then [.closed c] else [.closed c, .disconnected c jid])
 
-/-- `_q_clientConnected` for connection `c` -/
+/-- conflict: a *different* connection holds the full jid `jid`: it gets a `conflict` stream error and is closed -/
+def kickOld (s0 : Server) (c : Nat) (jid : List Char) : Server × List Out :=
+  match (s0.byJid.filter (·.1 = jid)).map (·.2) |>.head? with
+  | some o =>
+    if o ≠ c ∧ !(s0.conns o).closed then
+      let s1 := setConn s0 o { s0.conns o with closed := true, pending := [] }
+      let r := unregister s1 o
+      (r.1, [.send o (.streamError .conflict), .send o .streamEnd] ++ r.2)
+    else (s0, [])
+  | none => (s0, [])
+
+/-- `incomingClientsByJid.insert(jid, client)`, `incomingClientsByBareJid[bare].insert(client)` -/
+def insertEntry (s2 : Server) (c : Nat) (jid : List Char) : Server :=
+  { s2 with byJid := (jid, c) :: s2.byJid.filter (·.1 ≠ jid),
+            byBare := if s2.byBare.contains (bareOf jid, c) then s2.byBare else (bareOf jid, c) :: s2.byBare }
+
+/-- `_q_clientConnected` for connection `c`: forget what it was registered as before, replace a connection that
+holds the same full jid (conflict), register -/
 def register (s : Server) (c : Nat) : Server × List Out :=
   let jid := (s.conns c).jid
-  let old := (s.byJid.filter (·.1 = jid)).map (·.2) |>.head?
-  let kick : Server × List Out :=
-    match old with
-    | some o =>
-      if o ≠ c ∧ !(s.conns o).closed then
-        let s1 := setConn s o { s.conns o with closed := true, pending := [] }
-        let r := unregister s1 o
-        (r.1, [.send o (.streamError .conflict), .send o .streamEnd] ++ r.2)
-      else if o ≠ c then (s, [.ub c])   -- `old->sendData(...)` on the deleted owner of a stale entry
-      else (s, [])
-    | none => (s, [])
-  let s2 := kick.1
-  ({ s2 with byJid := (jid, c) :: s2.byJid.filter (·.1 ≠ jid),
-             byBare := if s2.byBare.contains (bareOf jid, c) then s2.byBare else (bareOf jid, c) :: s2.byBare },
-   kick.2 ++ [.connected c jid])
+  let k := kickOld (dropEntries s c) c jid
+  (insertEntry k.1 c jid, k.2 ++ [.connected c jid])
 
 /-- turn one connection-level output into server-level effects -/
 def applyOut (cfg : Cfg) (s : Server) (c : Nat) : COut → Server × List Out
